@@ -221,6 +221,10 @@ func limitedParse(api int, in []byte, n uint64, useOpt bool, variant int, entryS
 		case apiParse:
 			var opts []grammar.Option
 			if useOpt {
+				if variant%4 == 2 {
+					// the option given twice: the last one counts (also when it is 0)
+					opts = append(opts, grammar.MaxExpressions(n/2+7))
+				}
 				opts = append(opts, grammar.MaxExpressions(n))
 			}
 			if useOpt && variant%4 == 1 {
@@ -248,9 +252,14 @@ func limitedParse(api int, in []byte, n uint64, useOpt bool, variant int, entryS
 			var opts []bexpr.Option
 			if useOpt {
 				// the budget must reach the parser whatever else is configured
-				switch variant % 6 {
+				switch variant % 8 {
 				case 0, 1:
 					opts = []bexpr.Option{bexpr.WithMaxExpressions(n)}
+				case 6:
+					// the option given twice: the last one counts (also when it is 0)
+					opts = []bexpr.Option{bexpr.WithMaxExpressions(n/2 + 7), bexpr.WithMaxExpressions(n)}
+				case 7:
+					opts = []bexpr.Option{bexpr.WithMaxExpressions(0), bexpr.WithUnknownValue(1), bexpr.WithMaxExpressions(1 << 40), bexpr.WithMaxExpressions(n)}
 				case 2:
 					opts = []bexpr.Option{bexpr.WithTagName("json"), bexpr.WithMaxExpressions(n)}
 				case 3:
@@ -261,7 +270,7 @@ func limitedParse(api int, in []byte, n uint64, useOpt bool, variant int, entryS
 					opts = []bexpr.Option{bexpr.WithHookFn(func(v reflect.Value) reflect.Value { return v }), bexpr.WithMaxExpressions(n)}
 				}
 			}
-			if useOpt && variant%6 == 1 {
+			if useOpt && variant%8 == 1 {
 				// the same option values serve two creations
 				bexpr.CreateEvaluator("q == 1", opts...)
 				e0, s0 = 0, verifsim.Steps()
@@ -530,6 +539,13 @@ func RunC11Case(env *C11Env, c C11Case, seed uint64) C11Result {
 				viol("zero-differs", 0, 0, "a parse without any budget failed with the max-expressions error", o)
 			}
 			// n = 0 means unlimited
+			if entries < 300000 {
+				// ... also when an earlier option of the same list had set a budget
+				z6, _, _ := limitedParse(api, in, 0, true, 6, env.EntrySites)
+				if !z6.same(o) {
+					viol("zero-differs", 0, 0, "budget 0 given after another budget in the same option list must behave like no budget (the last one counts)", z6)
+				}
+			}
 			z, _, _ := limitedParse(api, in, 0, true, 0, env.EntrySites)
 			if !z.same(o) {
 				viol("zero-differs", 0, 0, "budget 0 must behave like no budget", z)
